@@ -29,6 +29,7 @@ type c05Case struct {
 	CrossFile     bool      `json:"cross_file"`
 	Overridden    bool      `json:"overridden"`
 	SkipInterp    bool      `json:"skip_interpolation,omitempty"` // every load of the case runs without interpolation
+	Tags          []string  `json:"tags,omitempty"`               // !reset / !override on attributes of the extending service
 }
 
 // c05SkipInterp is set for the duration of one case (cases of a process run one after the other)
@@ -144,6 +145,47 @@ func genC05(t *rapid.T) c05Case {
 		}
 	}
 	cs := c05Case{Service: name, SkipInterp: rapid.IntRange(0, 3).Draw(t, "skipinterp") == 0}
+	// the extending service may tag attributes of its own: `!reset` drops what the chain of bases brings,
+	// `!override` replaces it without merging - wherever the base that brings it lives
+	if rapid.IntRange(0, 2).Draw(t, "tags") == 0 {
+		g := &mgen{t: t}
+		simple := map[string]bool{"cap_add": true, "dns": true, "environment": true, "labels": true, "command": true, "healthcheck": true, "logging": true,
+			"ports": true, "sysctls": true, "extra_hosts": true, "hostname": true, "security_opt": true, "tmpfs": true, "expose": true}
+		usedAttr := map[string]bool{}
+		for n := rapid.IntRange(1, 2).Draw(t, "ntags"); n > 0; n-- {
+			tag := rapid.SampledFrom([]string{"!reset", "!override"}).Draw(t, "tag")
+			var cands []attrGen
+			for _, a := range serviceAttrTable() {
+				_, inTarget := svc[a.key]
+				if simple[a.key] && !usedAttr[a.key] && (tag == "!reset") != inTarget {
+					cands = append(cands, a)
+				}
+			}
+			if len(cands) == 0 {
+				continue
+			}
+			a := cands[rapid.IntRange(0, len(cands)-1).Draw(t, "tagattr")]
+			usedAttr[a.key] = true
+			decoy := a.gen(g, name)
+			for _, part := range parts {
+				delete(part, a.key)
+			}
+			parts[rapid.IntRange(0, nbases-1).Draw(t, "tagbase")][a.key] = decoy
+			if tag == "!reset" {
+				var placeholder any
+				switch decoy.(type) {
+				case []any:
+					placeholder = []any{}
+				case map[string]any:
+					placeholder = map[string]any{}
+				}
+				parts[nbases][a.key] = tagged{Tag: "!reset", V: placeholder}
+			} else {
+				parts[nbases][a.key] = tagged{Tag: "!override", V: cloneTree(svc[a.key])}
+			}
+			cs.Tags = append(cs.Tags, tag+":"+a.key)
+		}
+	}
 	files := make([]string, nbases+1) // file of base k; the last one is the main file
 	files[nbases] = "compose.yaml"
 	for k := 0; k < nbases; k++ {
@@ -309,6 +351,9 @@ func c05Check(c *Ctx, cs c05Case) *Failure {
 	if cs.SkipInterp {
 		c.Label("skip-interpolation")
 	}
+	for _, tg := range cs.Tags {
+		c.Label("tag:" + strings.SplitN(tg, ":", 2)[0])
+	}
 	support := func() []memFile {
 		var out []memFile
 		for _, f := range cs.Distributed {
@@ -335,6 +380,17 @@ func c05Check(c *Ctx, cs c05Case) *Failure {
 		if strings.HasPrefix(cs.Negative, "ok:") {
 			if r.Err != nil {
 				return failf("c05:valid-chain-rejected:"+cs.Negative, "a valid extends chain (%s) was rejected: %v", cs.Negative, r.Err)
+			}
+			return nil
+		}
+		if strings.HasPrefix(cs.Negative, "one-mount:") {
+			// base and extending service mount the same container path, spelled differently: one mount, the later one
+			if r.Err != nil {
+				return failf("c05:valid-chain-rejected:"+cs.Negative, "%s was rejected: %v", cs.Negative, r.Err)
+			}
+			vols := r.Project.Services[cs.Service].Volumes
+			if len(vols) != 1 || vols[0].Source != "/host/b" || vols[0].Target != "/cache" {
+				return failf("c05:chain-differs-from-flattened:Volumes.[]", "%s: the extending service mounts /host/b at /cache over the base's mount at the same path, loaded volumes: %+v", cs.Negative, vols)
 			}
 			return nil
 		}
@@ -486,6 +542,11 @@ func c05Negatives() []c05Case {
 		}
 		b.WriteString("  web:\n    extends: s0\n")
 		mk(fmt.Sprintf("cycle-%d", n), memFile{Name: "compose.yaml", Content: b.String()})
+	}
+	// one mount target, spelled with and without a trailing separator
+	for i, pair := range [][2]string{{"- /host/a:/cache/", "- /host/b:/cache"}, {"- /host/a:/cache", "- /host/b:/cache/"}, {"- {type: bind, source: /host/a, target: /cache/}", "- /host/b:/cache"},
+		{"- /host/a:/cache", "- {type: bind, source: /host/b, target: /./cache}"}} {
+		mk(fmt.Sprintf("one-mount:unclean-target-%d", i), memFile{Name: "compose.yaml", Content: "services:\n  base:\n    image: x\n    volumes:\n      " + pair[0] + "\n  web:\n    extends: base\n    volumes:\n      " + pair[1] + "\n"})
 	}
 	// bases without content
 	mk("clean:null-base-in-file", memFile{Name: "compose.yaml", Content: "services:\n  web:\n    image: x\n    extends: {file: base.yaml, service: base}\n"}, memFile{Name: "base.yaml", Content: "services:\n  base:\n"})
